@@ -225,24 +225,24 @@ def heap_selftest(runs, codes):
     out = {}
     ops = [dict(op="new", pat="dense", vals=[1, 2], dflt=0, res=[0]), dict(op="clone", x=0, res=[1]), dict(op="map", f=0, x=1, res=[])]
     kept, steps = H.replay_sequence((2,), ops)
-    good = heap_eval(steps)
     def falsify(fn):
         st = [(w, o, [tuple(x) for x in obs]) for w, o, obs in steps]
-        fn(st); return heap_eval(st)
+        fn(st); return st
     def f1(st):
         w, o, obs = st[2]; k, c, dv, d, di = obs[0]; obs[0] = (k, c, [-v for v in dv], d, di)
     def f2(st):
         w, o, obs = st[2]; k, c, dv, d, di = obs[1]; obs[1] = (k, 0, dv, d, di)
     def f3(st):
         w, o, obs = st[2]; k, c, dv, d, di = obs[1]; obs[1] = (k, c, [v + 1 for v in dv], d, di)
-    out = dict(unmodified=good, source_changed_after_inplace_on_clone=falsify(f1), clone_shares_storage=falsify(f2), wrong_value=falsify(f3))
+    good, c1, c2, c3 = run_ocaml(HEAPFN, [steps, falsify(f1), falsify(f2), falsify(f3)])
+    out = dict(unmodified=good, source_changed_after_inplace_on_clone=c1, clone_shares_storage=c2, wrong_value=c3)
     out["failed"] = not (good == 0 and out["source_changed_after_inplace_on_clone"] == 1 and out["clone_shares_storage"] == 11 and out["wrong_value"] == 12)
     return out
 
 def heap_stream(tier, seed):
     """random operation sequences over PatternedTensors / MultiTensors: real objects vs the Coq heap model"""
     rng = random.Random(seed * 1009 + 18)
-    nseq = int(os.environ.get("VERIF_N_HEAP", 0)) or (220 if tier == "quick" else 6000)
+    nseq = int(os.environ.get("VERIF_N_HEAP", 0)) or (170 if tier == "quick" else 6000)
     runs = []; crashes = []
     for i in range(nseq):
         length = rng.choice([3, 4, 5, 6, 7, 8, 9, 10, 11, 12, 12])
@@ -251,7 +251,7 @@ def heap_stream(tier, seed):
             crashes.append(excs.pop())
         runs.append((shape, ops, steps, excs))
     vals = [r[2] for r in runs]
-    codes, nk = run_model(HEAPFN, vals, seed=seed, coq_sample=6 if tier == "quick" else 25, tag="c18heap")
+    codes, nk = run_model(HEAPFN, vals, seed=seed, coq_sample=4 if tier == "quick" else 25, tag="c18heap")
     violations = []; nshrunk = {}
     for cr in crashes:
         violations.append(Violation("heap model: an operation raised an exception that the model does not predict", case=dict(kind="heap-exception", **cr),
